@@ -4,6 +4,7 @@ use super::out::{Out, RunCfg};
 pub mod common;
 pub mod c01;
 pub mod c05;
+pub mod c10;
 pub mod c12;
 pub mod c13;
 pub mod c14;
@@ -14,6 +15,7 @@ pub fn dispatch(prop: &str, cfg: &RunCfg, out: &Out) {
     match prop {
         "C01" => c01::run(cfg, out),
         "C05" => c05::run(cfg, out),
+        "C10" => c10::run(cfg, out),
         "C12" => c12::run(cfg, out),
         "C13" => c13::run(cfg, out),
         "C14" => c14::run(cfg, out),
